@@ -340,16 +340,22 @@ Definition ex_names : list (Z * str) :=
    (1, [65]); (2, [66]); (11, [97; 49]); (110, [97; 32; 111; 110; 101]); (13, [98; 34; 51]);
    (5, [111; 46; 106; 115; 111; 110])].
 Definition ex_nm : naming := mkNaming (Some [(7, 70)]) (Some [(8, [(11, (Some 110, None))])]).
+Definition ex_file_table : list (list str) :=
+  Eval vm_compute in match blob_to_csv_table ex_names [] ex_nm [7; 8] 1 [] [] ex_blob with Ok t => t | Err _ => [] end.
+Definition ex_file_text : str :=
+  Eval vm_compute in
+    match blob_to_csv_text ex_names [] [114] [49; 46; 51] ex_nm [7; 8] (Some 5) 2 1 [] [] ex_blob with
+    | Ok t => t | Err _ => [] end.
 Example c15_example_file :
-  exists text tb,
-    blob_to_csv_text ex_names [] [114] [49; 46; 51] ex_nm [7; 8] (Some 5) 2 1 [] [] ex_blob = Ok text /\
-    blob_to_csv_table ex_names [] ex_nm [7; 8] 1 [] [] ex_blob = Ok tb /\
-    forallb comment_ok (csv_comment_bodies ex_names [114] [49; 46; 51] ex_nm [7; 8] (Some 5) 2) = true /\
-    well_shaped true tb = true /\
-    csv_parse true text = Some tb /\
-    nth_error tb 2 = Some [[32; 99; 44; 49]; [66]; [66]; [45; 48; 46; 50; 53; 48; 48]; [98; 34; 51]; [98; 34; 51];
-                           [98; 34; 51]; [45; 48; 46; 50; 53; 48; 48]].
-Proof. eexists. eexists. vm_compute. repeat split; reflexivity. Qed.
+  blob_to_csv_text ex_names [] [114] [49; 46; 51] ex_nm [7; 8] (Some 5) 2 1 [] [] ex_blob = Ok ex_file_text /\
+  blob_to_csv_table ex_names [] ex_nm [7; 8] 1 [] [] ex_blob = Ok ex_file_table /\
+  forallb comment_ok (csv_comment_bodies ex_names [114] [49; 46; 51] ex_nm [7; 8] (Some 5) 2) = true /\
+  well_shaped true ex_file_table = true /\
+  csv_parse true ex_file_text = Some ex_file_table /\
+  nth_error ex_file_table 2 =
+    Some [[32; 99; 44; 49]; [66]; [66]; [45; 48; 46; 50; 53; 48; 48]; [98; 34; 51]; [98; 34; 51];
+          [98; 34; 51]; [45; 48; 46; 50; 53; 48; 48]].
+Proof. repeat split; vm_compute; reflexivity. Qed.
 (* the comment lines of that file: '# metadata = o.json', '# taxonomy hierarchy = ["L7", "L8"]',
    '# readable taxonomy hierarchy = ["cls", "L8"]', "# algorithm: 'hierarchical'; codebase: r; version: 1.3" *)
 Example c15_example_comment_bodies :
